@@ -366,7 +366,7 @@ func main() {
 			run.Sample("stream", map[string]string{"case": st.Describe(), "client": vk.Q(srvframe.Wire(&st))})
 		}
 	}
-	run.Rule = "streams = sequences of <=2 (quick: first or second command from the full variant set, the other from the follow-up set) / <=2 full x full and <=3 (thorough: two from the small follow-up set, one full) command variants + 'zz NOOP' sentinel, x 3 capability sets x 3 starting states x {per-command segments, pipelined} x {client waits for '+', client sends anyway} (pipelined+sends-anyway on single commands only; triples with per-command segments only). Variants: 15 templates (LOGIN, SELECT, CREATE, RENAME, STATUS, LIST, APPEND, APPEND flags+date, APPEND UTF8, APPEND whose backend refuses with none / with 3 octets of the message read, APPEND whose backend accepts with 2 octets read, SEARCH BODY, FETCH BODY[HEADER.FIELDS], STORE FLAGS), each string argument as atom / quoted / {n} / {n+} with n in {0,1,4096,4097} and, announced only, {2^32, 2^32+1, 2^33+4096} (APPEND message also 100 MiB and 100 MiB+1 announced; over-limit payload really sent in 2 cases), payload classes plain / command-like lines / rest-of-the-command-line + command lines / ends in CR, anomalies announced>actual (client stops) and junk between literal and CRLF, junk tail on every template; AUTHENTICATE PLAIN (no initial response, initial response, '*', 4096+ byte line, not base64, empty line); IDLE with 0-2 updates written by the idle goroutine and DONE / command-like garbage / over-long garbage / 'done'; NOOP; unknown command; rejected command lines (unknown command / NOOP with surplus arguments / STORE with a syntax error inside the flag list) whose discarded rest ends in a non-synchronising literal header {n+} with a marked command-like payload and contains before it nothing special / a quoted '{' / a quoted 'folder{1}' / a{b / a}b / x+} / {3} / {3+}, two such literals in one rejected line, and the mirror lines that do NOT end in a literal header ('9+}' without '{', {x+}, {+}, {-9+}, {9+} not at the end of the line) after which the next command must be answered. Alphabet derivation: the rejected-line shapes = the branches of the literal-suffix recogniser used by DiscardLine (ends in '+}', position of the LAST '{', size is a number, size >= 0); 2^32-class sizes = sizes are number64/int64 and a narrower comparison would see their low 32 bits; 4096/4097 = checkBufferedLiteral and acceptLiteral comparisons and the bufio buffer size (ReadLine isPrefix), appendLimit(+1) = handleAppend comparison, capability sets = the LiteralPlus test in acceptLiteral, starting states = checkState placement relative to literal acceptance in handleAppend, backend answers = the order of Session.Append's return, the drain of the unread literal and the error return in handleAppend. non-trivial = streams containing at least one literal"
+	run.Rule = "streams = sequences of <=2 (quick: first or second command from the full variant set, the other from the follow-up set) / <=2 full x full and <=3 (thorough: two from the small follow-up set, one full) command variants + 'zz NOOP' sentinel, x 3 capability sets x 3 starting states x {per-command segments, pipelined} x {client waits for '+', client sends anyway} (pipelined+sends-anyway on single commands only; triples with per-command segments only). Variants: 15 templates (LOGIN, SELECT, CREATE, RENAME, STATUS, LIST, APPEND, APPEND flags+date, APPEND UTF8, APPEND whose backend refuses with none / with 3 octets of the message read, APPEND whose backend accepts with 2 octets read, SEARCH BODY, FETCH BODY[HEADER.FIELDS], STORE FLAGS), each string argument as atom / quoted / {n} / {n+} with n in {0,1,4096,4097} and, announced only, {2^32, 2^32+1, 2^33+4096, 2^62, 2^63-1} (APPEND message also 100 MiB and 100 MiB+1 announced; over-limit payload really sent in 2 cases), payload classes plain / command-like lines / rest-of-the-command-line + command lines / ends in CR, anomalies announced>actual (client stops) and junk between literal and CRLF, junk tail on every template; AUTHENTICATE PLAIN (no initial response, initial response, '*', 4096+ byte line, not base64, empty line); IDLE with 0-2 updates written by the idle goroutine and DONE / command-like garbage / over-long garbage / 'done'; NOOP; unknown command; rejected command lines (unknown command / NOOP with surplus arguments / STORE with a syntax error inside the flag list) whose discarded rest ends in a non-synchronising literal header {n+} with a marked command-like payload and contains before it nothing special / a quoted '{' / a quoted 'folder{1}' / a{b / a}b / x+} / {3} / {3+}, two such literals in one rejected line, and the mirror lines that do NOT end in a literal header ('9+}' without '{', {x+}, {+}, {-9+}, {9+} not at the end of the line) after which the next command must be answered. Alphabet derivation: the rejected-line shapes = the branches of the literal-suffix recogniser used by DiscardLine (ends in '+}', position of the LAST '{', size is a number, size >= 0); 2^32-class sizes = sizes are number64/int64 and a narrower comparison would see their low 32 bits; 4096/4097 = checkBufferedLiteral and acceptLiteral comparisons and the bufio buffer size (ReadLine isPrefix), appendLimit(+1) = handleAppend comparison, capability sets = the LiteralPlus test in acceptLiteral, starting states = checkState placement relative to literal acceptance in handleAppend, backend answers = the order of Session.Append's return, the drain of the unread literal and the error return in handleAppend. non-trivial = streams containing at least one literal"
 	run.Exhaustive = !devLimit && budgetHit == 0
 	run.Set("command_sequences_explored", seqsDone)
 	if budgetHit != 0 {
